@@ -369,6 +369,31 @@ fn staged(src: &str, between: Option<&String>, via_json: bool, opts: &Opts) -> O
     }
 }
 
+/// A file name of a plan as a path: `%XX` stands for the raw byte XX, so that plans (JSON
+/// text) can name files whose names are not valid UTF-8 — legal on this platform and
+/// accepted by `SourceTree::new`.
+fn decode_path(s: &str) -> PathBuf {
+    if !s.contains('%') {
+        return PathBuf::from(s);
+    }
+    use std::os::unix::ffi::OsStringExt;
+    let b = s.as_bytes();
+    let mut out = Vec::with_capacity(b.len());
+    let mut i = 0;
+    while i < b.len() {
+        if b[i] == b'%' && i + 3 <= b.len() && s.is_char_boundary(i + 1) && s.is_char_boundary(i + 3) {
+            if let Ok(v) = u8::from_str_radix(&s[i + 1..i + 3], 16) {
+                out.push(v);
+                i += 3;
+                continue;
+            }
+        }
+        out.push(b[i]);
+        i += 1;
+    }
+    PathBuf::from(std::ffi::OsString::from_vec(out))
+}
+
 fn do_op(op: &Op) -> Obs {
     match op {
         Op::Compile { src, opts } => {
@@ -453,8 +478,8 @@ fn do_op(op: &Op) -> Obs {
                 Err(e) => return Obs::err(format!("OPTS {}", err_json(&e))),
             };
             let path_of = |i: usize| match abs_prefix {
-                Some(pre) => PathBuf::from(format!("{pre}/project/{}", files[i].0)),
-                None => PathBuf::from(&files[i].0),
+                Some(pre) => decode_path(&format!("{pre}/project/{}", files[i].0)),
+                None => decode_path(&files[i].0),
             };
             let ordered = order
                 .iter()
